@@ -106,8 +106,20 @@ template <size_t oa, size_t ob>
 void add_ov(std::vector<Case> &cases) {
   for (size_t n = 2; n <= MAXN + 1; n++) cases.push_back({"overlap/o" + std::to_string(oa) + "x" + std::to_string(ob) + "/n" + std::to_string(n), [=] { overlap_case<oa, ob>(n); }});
 }
+#ifndef LARGEN
+#define LARGEN 17
+#endif
 void hx_cases(std::vector<Case> &cases) {
   add<MAXO>(cases);
+  // large grids: the element-wise comparison of two independent symbolic grids of 8..LARGEN points (every position of the first
+  // difference is a solver-decided path), equal-but-distinct grids, and isZero on long coefficient vectors
+  for (size_t n = 8; n <= LARGEN; n++) {
+    cases.push_back({"equal-large/o0/n" + std::to_string(n) + "/whole/grid2", [=] { equal_case<0>(n, {0, n}, {0, n}, 2); }});
+    cases.push_back({"equal-large/o1/n" + std::to_string(n) + "/tail/grid1", [=] { equal_case<1>(n, {n / 2, n}, {n / 2, n}, 1); }});
+    cases.push_back({"equal-large/o0/n" + std::to_string(n) + "/empty/grid2", [=] { equal_case<0>(n, {0, 0}, {0, 0}, 2); }});
+    cases.push_back({"iszero-large/o1/n" + std::to_string(n), [=] { iszero_case<1>(n, {n % 3, n}); }});
+  }
+  cases.push_back({"overlap-large/o0x1/n9", [=] { overlap_case<0, 1>(9); }});
   add_ov<0, 0>(cases);
   add_ov<1, 2>(cases);
   add_ov<2, 0>(cases);
